@@ -222,7 +222,7 @@ int runMonitor(const std::string& id) {
 	for (size_t i = (size_t)g_cfg.shard; i < N; i += (size_t)g_cfg.nshards) list.push_back(i);
 
 	std::string errPath = (g_cfg.outPath.empty() ? std::string("/dev/null") : g_cfg.outPath + ".err");
-	const long maxProblems = 40;
+	const long maxProblems = 14;
 	long problems = 0;
 	size_t pos = 0;
 	while (pos < list.size()) {
